@@ -125,12 +125,45 @@ class VClock:
 
 
 def install_clock(clock: VClock):
-    """Replace every clock the library reads by the virtual one."""
-    import opendsm.eemeter.models.daily.optimize as opt
-    import opendsm.eemeter.models.hourly.model as hm
+    """Replace every clock the library can read by the virtual one: the module-level names bound to a clock function in
+    any opendsm module (e.g. `from timeit import default_timer as timer`), and the functions of the `time` / `timeit`
+    modules themselves for code that calls `time.time()`.  Done inside the run's own process only."""
+    import sys
+    import time
+    import timeit
 
-    opt.timer = clock
-    hm.timer = clock
+    real = {time.time, time.perf_counter, time.monotonic, timeit.default_timer, time.process_time}
+    for name, mod in list(sys.modules.items()):
+        if mod is None or not (name == "opendsm" or name.startswith("opendsm.")):
+            continue
+        for attr, val in list(vars(mod).items()):
+            try:
+                if val in real:
+                    setattr(mod, attr, clock)
+            except TypeError:
+                pass
+    clock.wall0 = 1_790_000_000.0
+
+    def wall():
+        return clock.wall0 + clock()
+
+    time.time = wall
+    time.perf_counter = clock
+    time.monotonic = clock
+    timeit.default_timer = clock
+
+
+def native_clock():
+    """Control words of the LD_PRELOAD clock shim in this process (None when the shim is not loaded)."""
+    import ctypes
+
+    try:
+        lib = ctypes.CDLL(env.NATIVE_SHIM)
+        if env.NATIVE_SHIM not in os.environ.get("LD_PRELOAD", ""):
+            return None
+        return (ctypes.c_longlong * 4).in_dll(lib, "verif_clock_ctl")
+    except Exception:  # noqa: BLE001
+        return None
 
 
 def run_in_thread(fn):
